@@ -887,3 +887,201 @@ func BinBV(op Op, a, b *Term) *Term {
 		panic("BinBV")
 	})
 }
+
+// ---- concrete evaluation (used to decide branch feasibility exhaustively when the cone of influence of a query has
+// only a few Boolean variables: sound pruning, no solver needed) ----
+
+type evalCtx struct {
+	val  map[int]uint64
+	memo map[int]uint64
+}
+
+func (ec *evalCtx) eval(t *Term) uint64 {
+	if t.op == OConst {
+		return t.val
+	}
+	if v, ok := ec.memo[t.id]; ok {
+		return v
+	}
+	var r uint64
+	a := func(i int) uint64 { return ec.eval(t.args[i]) }
+	b2u := func(b bool) uint64 {
+		if b {
+			return 1
+		}
+		return 0
+	}
+	switch t.op {
+	case OVar:
+		r = ec.val[t.id]
+	case ONot:
+		r = 1 - a(0)
+	case OAnd:
+		r = 1
+		for i := range t.args {
+			if a(i) == 0 {
+				r = 0
+				break
+			}
+		}
+	case OOr:
+		r = 0
+		for i := range t.args {
+			if a(i) == 1 {
+				r = 1
+				break
+			}
+		}
+	case OIte:
+		if a(0) == 1 {
+			r = a(1)
+		} else {
+			r = a(2)
+		}
+	case OEq:
+		r = b2u(a(0) == a(1))
+	case OAdd:
+		r = (a(0) + a(1)) & mask(t.width)
+	case OSub:
+		r = (a(0) - a(1)) & mask(t.width)
+	case OMul:
+		r = (a(0) * a(1)) & mask(t.width)
+	case OUlt:
+		r = b2u(a(0) < a(1))
+	case OUle:
+		r = b2u(a(0) <= a(1))
+	case OSlt:
+		r = b2u(sext(a(0), t.args[0].width) < sext(a(1), t.args[1].width))
+	case OSle:
+		r = b2u(sext(a(0), t.args[0].width) <= sext(a(1), t.args[1].width))
+	case OZext:
+		r = a(0) & mask(t.width)
+	case OSext:
+		r = uint64(sext(a(0), t.args[0].width)) & mask(t.width)
+	case OBvAnd, OBvOr, OBvXor, OShl, OLshr, OAshr, OUdiv, OUrem, OSdiv, OSrem:
+		x, y := BV(t.args[0].width, a(0)), BV(t.args[1].width, a(1))
+		r = BinBV(t.op, x, y).val
+	default:
+		panic("eval: op")
+	}
+	ec.memo[t.id] = r
+	return r
+}
+
+// satByEnumeration decides t exhaustively if its variables are at most maxVars Booleans; ok=false otherwise.
+// The cone of t is ordered once; each assignment is one linear pass over it.
+func satByEnumeration(t *Term, maxVars int) (sat bool, ok bool) {
+	vs := varsOf(t)
+	if len(vs) > maxVars {
+		return false, false
+	}
+	for _, v := range vs {
+		if termList[v].width != 0 {
+			return false, false
+		}
+	}
+	// topological order of the cone
+	var order []*Term
+	pos := map[int]int{}
+	var visit func(x *Term)
+	visit = func(x *Term) {
+		if _, ok := pos[x.id]; ok {
+			return
+		}
+		for _, a := range x.args {
+			visit(a)
+		}
+		pos[x.id] = len(order)
+		order = append(order, x)
+	}
+	visit(t)
+	if len(order) > 400000 {
+		return false, false
+	}
+	argIdx := make([][]int, len(order))
+	for i, x := range order {
+		argIdx[i] = make([]int, len(x.args))
+		for j, a := range x.args {
+			argIdx[i][j] = pos[a.id]
+		}
+	}
+	vals := make([]uint64, len(order))
+	n := len(vs)
+	varBit := map[int]int{}
+	for i, v := range vs {
+		varBit[int(v)] = i
+	}
+	for m := 0; m < 1<<uint(n); m++ {
+		for i, x := range order {
+			ai := argIdx[i]
+			var r uint64
+			switch x.op {
+			case OConst:
+				r = x.val
+			case OVar:
+				r = uint64(m>>uint(varBit[x.id])) & 1
+			case ONot:
+				r = 1 - vals[ai[0]]
+			case OAnd:
+				r = 1
+				for _, k := range ai {
+					if vals[k] == 0 {
+						r = 0
+						break
+					}
+				}
+			case OOr:
+				r = 0
+				for _, k := range ai {
+					if vals[k] == 1 {
+						r = 1
+						break
+					}
+				}
+			case OIte:
+				if vals[ai[0]] == 1 {
+					r = vals[ai[1]]
+				} else {
+					r = vals[ai[2]]
+				}
+			case OEq:
+				if vals[ai[0]] == vals[ai[1]] {
+					r = 1
+				}
+			case OAdd:
+				r = (vals[ai[0]] + vals[ai[1]]) & mask(x.width)
+			case OSub:
+				r = (vals[ai[0]] - vals[ai[1]]) & mask(x.width)
+			case OMul:
+				r = (vals[ai[0]] * vals[ai[1]]) & mask(x.width)
+			case OUlt:
+				if vals[ai[0]] < vals[ai[1]] {
+					r = 1
+				}
+			case OUle:
+				if vals[ai[0]] <= vals[ai[1]] {
+					r = 1
+				}
+			case OSlt:
+				if sext(vals[ai[0]], x.args[0].width) < sext(vals[ai[1]], x.args[1].width) {
+					r = 1
+				}
+			case OSle:
+				if sext(vals[ai[0]], x.args[0].width) <= sext(vals[ai[1]], x.args[1].width) {
+					r = 1
+				}
+			case OZext:
+				r = vals[ai[0]] & mask(x.width)
+			case OSext:
+				r = uint64(sext(vals[ai[0]], x.args[0].width)) & mask(x.width)
+			default:
+				r = BinBV(x.op, BV(x.args[0].width, vals[ai[0]]), BV(x.args[1].width, vals[ai[1]])).val
+			}
+			vals[i] = r
+		}
+		if vals[len(order)-1] == 1 {
+			return true, true
+		}
+	}
+	return false, true
+}
